@@ -7,7 +7,8 @@ Import ListNotations.
 From PyccoloV Require Import gen.PyAst gen.Ids gen.Events model.Tree model.Erase.
 Local Open Scope N_scope.
 
-Inductive sel : Set := SelSelf | SelField (n : nat).
+Inductive sel : Set := SelSelf | SelField (n : nat)
+  | SelExcType.   (* the type expression of an except clause; for a bare `except:` the node is the clause itself and the value is BaseException *)
 
 (* the event table (DESIGN section 11), value column: which construct's value the event carries, relative to its node *)
 Definition value_table : list (event * sel) :=
@@ -21,7 +22,7 @@ Definition value_table : list (event * sel) :=
     (E_after_lambda, SelSelf); (E_after_comprehension_if, SelSelf); (E_after_comprehension_elt, SelSelf);
     (E_after_dict_comprehension_key, SelSelf); (E_after_dict_comprehension_value, SelSelf);
     (E_after_assign_rhs, SelSelf); (E_after_augassign_rhs, SelSelf); (E_after_return, SelSelf); (E_after_for_iter, SelSelf);
-    (E_decorator, SelSelf); (E_exception_handler_type, SelSelf);
+    (E_decorator, SelSelf); (E_exception_handler_type, SelExcType);
     (* the node is the statement / the enclosing expression, the value is that of one child *)
     (E_after_if_test, SelField 0); (E_after_while_test, SelField 0); (E_before_call, SelField 0);
     (E_before_attribute_load, SelField 0); (E_before_attribute_store, SelField 0); (E_before_attribute_del, SelField 0);
@@ -40,14 +41,18 @@ Fixpoint preorder (t : tree) {struct t} : list tree :=
               (fix gol (u : list tree) : list tree := match u with [] => [] | x :: u' => preorder x ++ gol u' end) f ++ gof l' end) fs
   end.
 
+Definition base_exception_name : tree := T kName [SId id_BaseException] [[T kLoad [] []]].
+
 Definition select (s : sel) (t : tree) : option tree :=
   match s, t with
   | SelSelf, _ => Some t
   | SelField n, T _ _ fs => match nth n fs [] with [x] => Some x | _ => None end
+  | SelExcType, T k _ fs =>
+      if N.eqb k kExceptHandler
+      then match fs with [] :: _ => Some base_exception_name | _ => None end     (* only a clause WITHOUT a type expression is its own event node *)
+      else Some t
   | _, _ => None
   end.
-
-Definition base_exception_name : tree := T kName [SId id_BaseException] [[T kLoad [] []]].
 
 Definition site_ok (pre : list tree) (t : tree) : bool :=
   match emit_parts t with
@@ -65,8 +70,7 @@ Definition site_ok (pre : list tree) (t : tree) : bool :=
                       | Some node => match select s node with Some v => tree_eqb x (norm v) | None => false end
                       | None => false
                       end
-                  | _ => (* a bare `except:` is read as `except BaseException:`: the only site without a source node *)
-                      N.eqb ev (ev_code E_exception_handler_type) && tree_eqb x base_exception_name
+                  | _ => false          (* every site names a node of the source *)
                   end
               | _ => false
               end
